@@ -24,6 +24,7 @@ type c15Plant struct {
 	Indels  int  `json:"indels"`
 	NearMin bool `json:"near_minimum_length_not_required"`
 	Short   bool `json:"just_above_minimum_judged_in_aggregate"`
+	Tandem  bool `json:"tandem_copy_close_to_the_main_diagonal"`
 }
 
 type c15Plan struct {
@@ -84,7 +85,7 @@ func init() {
 	register(&obs.Monitor{
 		ID:    "C15",
 		Level: "exploration",
-		Rule: "one PALS run (forward and complement-strand searches) per case: random ACGT backgrounds of 2..20 kb, self and non-self, (minimum hit length, minimum identity) from {50,100,200,400}x{0.8,0.85,0.9,0.94} as accepted by Optimise, 1..3 planted repeats of length 1.2..4 x the minimum hit length, exact or with substitutions " +
+		Rule: "one PALS run (forward and complement-strand searches) per case: random ACGT backgrounds of 2..20 kb, self and non-self, (minimum hit length, minimum identity) from {50,100,200,400}x{0.8,0.85,0.9,0.94} as accepted by Optimise, 1..3 planted repeats of length 1.2..4 x the minimum hit length, exact or with substitutions (in half of the self comparisons also two forward copies 0..11 letters apart, i.e. just above the zone excluded around the main diagonal) " +
 			"(and 1..2 short indels in thorough) at an error rate of at most min(1-minId-0.04, 0.03), forward and reverse-complemented. Soundness of every hit: inside both sequences, both extents >= minimum hit length, Error <= 1-minId, Score <= optimum of an independent global alignment (+1/-3/-3) of the two regions, edit distance <= 4*Error*lenB/3. " +
 			"Recall: some hit on the right strand covers >= 80% of the planted copy in both sequences; self-comparison never reports the trivial diagonal. Non-trivial = >=1 hit reported; distinct = plan + sequence hash",
 		Batches: func(t string) int {
@@ -97,7 +98,7 @@ func init() {
 		Case:        c15Case,
 		MinDistinct: func(t string) int { return 150 },
 		Floors: func(string) map[string]int64 {
-			return map[string]int64{"pals_runs": 200, "hits_checked": 250, "planted_repeats": 250, "planted_reverse_strand": 80, "planted_recovered": 250, "self_comparison_runs": 30, "hits_with_errors": 60, "near_minimum_plants": 60, "short_repeats_with_end_substitutions": 40}
+			return map[string]int64{"pals_runs": 200, "hits_checked": 250, "planted_repeats": 250, "planted_reverse_strand": 80, "planted_recovered": 250, "self_comparison_runs": 30, "hits_with_errors": 60, "near_minimum_plants": 60, "short_repeats_with_end_substitutions": 40, "tandem_self_repeats": 20}
 		},
 		Aggregate: func(tier string, c map[string]int64) []obs.Violation {
 			tried := c["short_repeats_recovered"] + c["short_repeats_missed"]
@@ -115,6 +116,11 @@ func init() {
 func c15Case(r *obs.Run, i int) {
 	rng := r.Rng
 	pl := c15Plan{MinHitLen: []int{50, 100, 200, 400}[rng.Intn(4)], MinID: []float64{0.8, 0.85, 0.9, 0.94}[rng.Intn(4)], Self: rng.Intn(4) == 0}
+	tandem := false
+	if pl.Self && rng.Intn(2) == 0 { // see below: close copies need a small minimum hit length to be possible at all
+		tandem = true
+		pl.MinHitLen = []int{50, 50, 100}[rng.Intn(3)]
+	}
 	maxLen := r.Pick(8000, 20000)
 	pl.TLen = 2000 + rng.Intn(maxLen-1999)
 	pl.QLen = 2000 + rng.Intn(maxLen-1999)
@@ -134,6 +140,25 @@ func c15Case(r *obs.Run, i int) {
 			}
 		}
 		return true
+	}
+	// self comparison, two forward copies next to each other (0..11 letters apart): the repeat's diagonal is only a
+	// little more than its own length above the main diagonal, next to the zone excluded for the trivial self match
+	if pl.Self && tandem {
+		L := int(float64(pl.MinHitLen) * (1.2 + 0.3*rng.Float64()))
+		gap := rng.Intn(12)
+		a0 := 50 + rng.Intn(pl.TLen-2*L-gap-100)
+		b0 := a0 + L + gap
+		w := append([]byte(nil), T[a0:a0+L]...)
+		p := c15Plant{A0: a0, A1: a0 + L, B0: b0, B1: b0 + L, Tandem: true}
+		if rng.Intn(3) == 0 {
+			p.Subs = 1
+			w = c14Mutate(rng, w, 1)
+		}
+		copy(Q[b0:], w)
+		usedT = append(usedT, iv{a0, b0 + L})
+		usedQ = append(usedQ, iv{a0, b0 + L})
+		pl.Plants = append(pl.Plants, p)
+		r.Count("tandem_self_repeats", 1)
 	}
 	for k := 0; k < nplant; k++ {
 		L := int(float64(pl.MinHitLen) * (1.2 + 2.8*rng.Float64()))
